@@ -4,7 +4,8 @@
      calculate_spherical_triangle_jacobian(_barycentric), calculate_face_area (fan from corner 0,
        quadrature loops, accumulators `area` and `jacobian`), get_all_face_area_from_coords
        (gather per face through n_nodes_per_face, the `dim > 2` switch),
-     Grid.compute_face_areas (lon/lat vs xyz input, dim = 2 hard-wired -- the defect is modelled),
+     Grid.compute_face_areas (lon/lat vs xyz input; the `dim` it passes on the Cartesian path is
+       GENERATED from the source: c05_dim_cartesian3, `dim = 2 if latlon else 3` since fix 4eed51d9),
      Grid.face_areas (cache in _ds), Grid.calculate_total_face_area, Grid.face_jacobian
      (compute_face_areas returns fresh arrays and stores nothing; face_areas stores the default
      computation in _ds and its jacobian in _face_jacobian).
@@ -191,14 +192,18 @@ Section Num.
     c05_npf : list Z
   }.
 
-  (* Grid.compute_face_areas(quadrature_rule, order, latlon); `dim = 2` is hard-wired in the code,
-     so the z column is replaced by zeros also on the Cartesian path.  fixdim = true is the
-     repaired variant (dim = 3 when latlon is False). *)
+  (* Grid.compute_face_areas(quadrature_rule, order, latlon), parameterised by the `dim` it passes on
+     the Cartesian path: dim3 = false is `dim = 2` (the code before fix 4eed51d9: the z column is
+     replaced by zeros), dim3 = true is `dim = 2 if latlon else 3` (the code as it is now).  The
+     current tree is c05_compute_cur below, with the flag generated from the source. *)
   Definition c05_compute (fixdim : bool) (conv : T -> T -> c05_vec) (g : c05_grid)
              (rule : c05_quad) (order : Z) (latlon : bool) : option (list c05_acc) :=
     if latlon
     then c05_all_areas (c05_lonlat g) (c05_conn g) (c05_npf g) false rule order (Some conv)
     else c05_all_areas (c05_xyz g) (c05_conn g) (c05_npf g) fixdim rule order None.
+
+  (* the code as it is: dim read from grid.py by the translator *)
+  Definition c05_compute_cur := c05_compute c05_dim_cartesian3.
 
   Definition c05_default_rule : c05_quad :=
     if c05_default_is_triangular then C05_triangular else C05_gaussian.
